@@ -16,9 +16,8 @@ Theorem C05_state_restored_cyg : forall c, shp c = CYG -> forall k s hk,
 Proof. exact restored_cyg. Qed.
 Print Assumptions C05_state_restored_cyg.
 
-(* The same for the -pg / fentry shape (a frame is pushed only for an accepted call): EVERY configuration as well,
-   since a rejected entry undoes what its trigger changed (mcount_entry_filter_undo, fix of the defect
-   pg-reject-leak). *)
+(* The same for the -pg / fentry shape: EVERY configuration as well, since a rejected function whose trigger
+   changed the filter state keeps a NORECORD frame like the always-push shape (fix of the defect pg-reject-leak). *)
 Theorem C05_state_restored_pg : forall c, shp c = PG -> forall k s hk,
   exists s', exec c (flat k) (s, hk) = (s', hk) /\
              fc s' = fc s /\ ridx s' = ridx s /\ eqw (stack s') (stack s).
@@ -112,23 +111,22 @@ Print Assumptions C05_no_switch_example.
 
 (* Documented semantics, stage 2: -F / -N / -C / -D / -t together with the trigger actions depth=N, time=T, size=Z and trace
    (alone or combined with filter / notrace / caller on the same function), any trigger table with well-formed values, any
-   threshold, both instrumentation shapes (the -pg / fentry shape under [pg_guard]: a time= / size= trigger of a call rejected by the depth limit is not
-   applied to its callees there, see the known finding pg-rejected-trigger-scope): the recorded stream equals the tree-recursive specification [sel2]. *)
+   threshold, both instrumentation shapes, no further hypothesis: the recorded stream equals the tree-recursive specification [sel2]. *)
 Theorem C05_matches_documented_filters_depth_time_triggers : forall tg szf fm hc gd thr ms sh,
-  0 < gd -> wf_tg tg -> sh = CYG \/ pg_guard tg -> forall f, all_timed f -> heights f <= ms ->
+  0 < gd -> wf_tg tg -> forall f, all_timed f -> heights f <= ms ->
   out (fst (exec (fcfg2 tg szf fm hc gd thr ms sh) (flat_forest f) (init, []))) =
   flat_map (sel2 tg szf hc (x02 fm gd thr) 0) f.
 Proof. exact run_forest_sel2. Qed.
 Print Assumptions C05_matches_documented_filters_depth_time_triggers.
 
-(* non-vacuity: a table with filter+depth=+time=, notrace, and depth=+time= entries meets both hypotheses *)
-Theorem C05_trigger_table_example : wf_tg tg_example /\ pg_guard tg_example.
+(* non-vacuity: a table with filter+depth=+time=+size=, notrace, and depth=+time=+trace entries is well formed *)
+Theorem C05_trigger_table_example : wf_tg tg_example.
 Proof. exact tg_example_ok. Qed.
 Print Assumptions C05_trigger_table_example.
 
-(* ... and therefore independent of the instrumentation method inside that option class *)
+(* ... and therefore independent of the instrumentation method in the whole option class *)
 Theorem C05_method_independent_filters_triggers : forall tg szf fm hc gd thr ms f,
-  0 < gd -> wf_tg tg -> pg_guard tg -> all_timed f -> heights f <= ms ->
+  0 < gd -> wf_tg tg -> all_timed f -> heights f <= ms ->
   out (fst (exec (fcfg2 tg szf fm hc gd thr ms PG) (flat_forest f) (init, []))) =
   out (fst (exec (fcfg2 tg szf fm hc gd thr ms CYG) (flat_forest f) (init, []))).
 Proof. exact method_independent_sel2. Qed.
@@ -140,12 +138,19 @@ Theorem C05_nested_any_configuration_any_depth : forall c, no_switch c -> forall
 Proof. exact nested_any_cfg_any_depth. Qed.
 Print Assumptions C05_nested_any_configuration_any_depth.
 
-(* State restoration on the -pg shape beyond [safe_pg]: inside the stage-2 option class (time= and size= triggers
-   allowed when they come with a filter or a depth= trigger) every call, from every state the class can reach,
+(* Inside the stage-2 option class every call, from every state the class can reach,
    leaves the filter state and the record index as it found them. *)
 Theorem C05_state_restored_stage2_class : forall tg szf fm hc gd thr ms sh,
-  0 < gd -> wf_tg tg -> sh = CYG \/ pg_guard tg -> forall k, timed k -> forall s hk i o dp mx tm zs x,
+  0 < gd -> wf_tg tg -> forall k, timed k -> forall s hk i o dp mx tm zs x,
   fc s = fstate2 i o dp mx tm zs -> Rel2 fm gd thr i o dp mx tm zs x -> enabled s = true -> idx s + height k <= ms ->
   exists s', exec (fcfg2 tg szf fm hc gd thr ms sh) (flat k) (s, hk) = (s', hk) /\ fc s' = fc s /\ ridx s' = ridx s.
 Proof. exact call_restores_state_sel2. Qed.
 Print Assumptions C05_state_restored_stage2_class.
+
+(* ... and with the global size filter -Z gz in force from the start of every thread *)
+Theorem C05_matches_documented_with_size_filter_Z : forall tg szf fm hc gd thr ms sh gz f,
+  0 < gd -> wf_tg tg -> all_timed f -> heights f <= ms ->
+  out (fst (exec (fcfg2 tg szf fm hc gd thr ms sh) (flat_forest f) (init_z gz, []))) =
+  flat_map (sel2 tg szf hc (x02z fm gd thr gz) 0) f.
+Proof. exact run_forest_sel2_z. Qed.
+Print Assumptions C05_matches_documented_with_size_filter_Z.
